@@ -63,7 +63,9 @@ Reasons(r) ==
                \cup (IF r.cfg.visit = order THEN {} ELSE {<<"C01", "visitor">>})
                \cup (IF r.cfg.combined = order THEN {} ELSE {<<"C01", "combined-scan">>})
                \cup (IF r.cfg.visit_outer = SelectSeq(order, LAMBDA n : n \in Outermost(T, ToSet(r.cfg.hits)))
-                     THEN {} ELSE {<<"C01", "overlap-free">>}))
+                     THEN {} ELSE {<<"C01", "overlap-free">>})
+               \* Node::replace_all rewrites exactly the matches of that visit, one edit each, in its order
+               \cup (IF r.cfg.ra_pos = r.cfg.outer_pos THEN {} ELSE {<<"C01", "overlap-free-rewrite">>}))
 
 Drift(r) ==
     LET U0 == Us[r.u]
